@@ -498,6 +498,23 @@ func childFile(b core.Batch, p params, o *core.Obs) {
 	o.EmitX("ctor", ob)
 }
 
+// jsonForm is the form in which a JSON document can carry a key at all: JSON strings are Unicode, so every byte
+// that is not part of a valid UTF-8 sequence is written as U+FFFD (one per byte, as encoding/json does). A service
+// that takes a key from client bytes (smtp header names) is judged on this form.
+func jsonForm(k string) string {
+	var sb strings.Builder
+	for i := 0; i < len(k); {
+		r, w := utf8.DecodeRuneInString(k[i:])
+		if r == utf8.RuneError && w == 1 {
+			sb.WriteRune(utf8.RuneError)
+		} else {
+			sb.WriteString(k[i : i+w])
+		}
+		i += w
+	}
+	return sb.String()
+}
+
 type evCheck struct {
 	Cat     string `json:"cat"`
 	Typ     string `json:"typ"`
@@ -552,7 +569,7 @@ func childSvc(b core.Batch, p params, o *core.Obs) {
 					js[k] = true
 				}
 				for k := range rec.KV {
-					if !js[k] {
+					if !js[k] && !js[jsonForm(k)] {
 						chk("json-key|"+cat, "JSON of a %q event lacks key %q", cat, k)
 					}
 				}
